@@ -128,15 +128,20 @@ type Options struct {
 // HashOptions contains only the options in Options that upon modification leads to IndexState of IndexStateMismatch during the next index building.
 type HashOptions struct {
 	sizeMax          int
+	trigramMax       int
 	disableCTags     bool
 	ctagsPath        string
 	cTagsMustSucceed bool
 	largeFiles       []string
 }
 
+// defaultTrigramMax is the value SetDefaults gives Options.TrigramMax.
+const defaultTrigramMax = 20000
+
 func (o *Options) HashOptions() HashOptions {
 	return HashOptions{
 		sizeMax:          o.SizeMax,
+		trigramMax:       o.TrigramMax,
 		disableCTags:     o.DisableCTags,
 		ctagsPath:        o.CTagsPath,
 		cTagsMustSucceed: o.CTagsMustSucceed,
@@ -153,6 +158,12 @@ func (o *Options) GetHash() string {
 	hasher.Write(fmt.Appendf(nil, "%d", h.sizeMax))
 	hasher.Write(fmt.Appendf(nil, "%q", h.largeFiles))
 	hasher.Write(fmt.Appendf(nil, "%t", h.disableCTags))
+	// TrigramMax decides which documents are skipped ("too many trigrams"). The
+	// default (0 is replaced by it in SetDefaults) is left out of the hash so
+	// that indexes built before TrigramMax was part of it stay valid.
+	if h.trigramMax != 0 && h.trigramMax != defaultTrigramMax {
+		hasher.Write(fmt.Appendf(nil, "trigramMax:%d", h.trigramMax))
+	}
 
 	return fmt.Sprintf("%x", hasher.Sum(nil))
 }
@@ -330,7 +341,7 @@ func (o *Options) SetDefaults() {
 		o.ShardMax = 100 << 20
 	}
 	if o.TrigramMax == 0 {
-		o.TrigramMax = 20000
+		o.TrigramMax = defaultTrigramMax
 	}
 
 	if o.RepositoryDescription.Name == "" && o.RepositoryDescription.URL != "" {
